@@ -22,7 +22,7 @@ enum Ev : int { CALL_FF, RET_FF, CALL_SD, RET_SD, EXP_ENTER, EXP_EXIT, XFF_ENTER
 const char *const kEvName[] = {"call-flush", "ret-flush", "call-shutdown", "ret-shutdown", "export-enter", "export-exit", "exp-flush-enter", "exp-flush-exit", "exp-shutdown-enter",
                                "exp-shutdown-exit", "added"};
 struct Event { int kind, thread, a, b; int64_t vt; };
-struct Cfg { int readers, F, S, destroy, xlat; };
+struct Cfg { int readers, F, S, destroy, xlat /* bit r: Export of reader r takes 300 ms */, fft /* 0: 60 s, 1: 100 ms */; };
 std::vector<Cfg> g_cfgs;
 
 struct Shared {
@@ -39,7 +39,7 @@ struct Shared {
 
 [[noreturn]] void fail(const std::string &sig, const std::string &msg) {
   const Cfg &c = *g->cfg;
-  std::string s = msg + vf::sfmt("\n  config: readers=%d F=%d S=%d destroy=%d xlat=%d\n  events:\n", c.readers, c.F, c.S, c.destroy, c.xlat);
+  std::string s = msg + vf::sfmt("\n  config: readers=%d F=%d S=%d destroy=%d xlat=%d fft=%d\n  events:\n", c.readers, c.F, c.S, c.destroy, c.xlat, c.fft);
   for (size_t i = 0; i < g->ev.size(); ++i)
     s += vf::sfmt("    [%zu] T%d %s %d %d @%lldms\n", i, g->ev[i].thread, kEvName[g->ev[i].kind], g->ev[i].a, g->ev[i].b, (long long)(g->ev[i].vt / MS));
   vfs::fail(sig, s);
@@ -61,7 +61,7 @@ class Exporter final : public sdkm::PushMetricExporter {
             if (opentelemetry::nostd::holds_alternative<int64_t>(sp.value_)) v += opentelemetry::nostd::get<int64_t>(sp.value_);
           }
     g->log(EXP_ENTER, id_, (int)v);
-    if (g->cfg->xlat) std::this_thread::sleep_for(milliseconds(300));
+    if (g->cfg->xlat & (1 << id_)) std::this_thread::sleep_for(milliseconds(300));
     else g->tick.fetch_add(1);
     g->log(EXP_EXIT, id_);
     return sdkc::ExportResult::kSuccess;
@@ -81,14 +81,16 @@ void setup(vf::Options &o) {
   o.cap[vf::TIMER] = atoi(o.get("t", th ? "1" : "0").c_str());
   o.table_bits = th ? 25 : 23;
   o.deadline_s = atof(o.get("budget", th ? "400" : "45").c_str());
-  g_cfgs.push_back({1, 0, 2, 0, 0});   // two concurrent Shutdown callers
-  g_cfgs.push_back({1, 1, 0, 0, 0});   // flush through the provider, then shutdown
-  g_cfgs.push_back({1, 0, 0, 1, 0});   // destruction instead of Shutdown
+  g_cfgs.push_back({1, 0, 2, 0, 0, 0});   // two concurrent Shutdown callers
+  g_cfgs.push_back({1, 1, 0, 0, 0, 0});   // flush through the provider, then shutdown
+  g_cfgs.push_back({1, 0, 0, 1, 0, 0});   // destruction instead of Shutdown
+  g_cfgs.push_back({2, 1, 0, 0, 1, 1});   // two readers, a 100 ms budget, the FIRST reader's exporter is slow: the answer must be false
   if (th) {
-    g_cfgs.push_back({1, 1, 1, 0, 0});   // flush racing shutdown
-    g_cfgs.push_back({2, 1, 0, 0, 0});   // two readers
-    g_cfgs.push_back({2, 0, 2, 0, 0});
-    g_cfgs.push_back({1, 2, 0, 0, 1});
+    g_cfgs.push_back({1, 1, 1, 0, 0, 0});   // flush racing shutdown
+    g_cfgs.push_back({2, 1, 0, 0, 0, 0});   // two readers
+    g_cfgs.push_back({2, 0, 2, 0, 0, 0});
+    g_cfgs.push_back({1, 2, 0, 0, 1, 0});
+    g_cfgs.push_back({2, 1, 0, 0, 2, 1});   // ... the LAST reader's exporter is slow
   }
   std::string only = o.get("cfg");
   if (!only.empty()) { Cfg c = g_cfgs[atoi(only.c_str())]; g_cfgs.assign(1, c); }
@@ -110,11 +112,18 @@ void run(vf::Ctx &c) {
       provider->AddMetricReader(std::shared_ptr<sdkm::MetricReader>(new sdkm::PeriodicExportingMetricReader(std::unique_ptr<sdkm::PushMetricExporter>(new Exporter(r)), o)));
     auto meter = provider->GetMeter("m", "1");
     auto counter = meter->CreateUInt64Counter("c");
-    counter->Add(5);
-    sh.log(ADDED, 5);
+    // distinct powers of two: a cumulative export identifies exactly the measurements it contains
+    counter->Add(1);
+    sh.log(ADDED, 1);
     std::vector<std::thread> ts;
     for (int f = 0; f < cfg.F; ++f)
-      ts.emplace_back([&, f] { sh.log(CALL_FF, f); bool ok = provider->ForceFlush(microseconds(60ll * 1000 * 1000)); sh.log(RET_FF, f, ok); });
+      ts.emplace_back([&, f] {
+        counter->Add(2u << f);  // recorded immediately before the call: a collection made earlier does not contain it
+        sh.log(ADDED, 2 << f);
+        sh.log(CALL_FF, f);
+        bool ok = provider->ForceFlush(cfg.fft ? microseconds(100 * 1000) : microseconds(60ll * 1000 * 1000));
+        sh.log(RET_FF, f, ok);
+      });
     for (int s = 0; s < cfg.S; ++s)
       ts.emplace_back([&, s] { sh.log(CALL_SD, s); provider->Shutdown(); sh.log(RET_SD, s); });
     for (auto &t : ts) t.join();
@@ -139,13 +148,15 @@ void run(vf::Ctx &c) {
     if (ev[i].kind != RET_FF || !ev[i].b) continue;
     int ci = -1;
     for (int j = (int)i; j >= 0; --j) if (ev[j].kind == CALL_FF && ev[j].a == ev[i].a) { ci = j; break; }
+    int need = 0;  // everything recorded before the call began
+    for (int j = 0; j < ci; ++j) if (ev[j].kind == ADDED) need |= ev[j].a;
     for (int r = 0; r < cfg.readers; ++r) {
       bool exported = false, xff = false;
       for (int j = ci; j < (int)i; ++j) {
-        if (ev[j].kind == EXP_ENTER && ev[j].a == r && ev[j].b == 5) exported = true;  // the measurement recorded before the flush is in the exported data
+        if (ev[j].kind == EXP_ENTER && ev[j].a == r && (ev[j].b & need) == need) exported = true;  // every measurement recorded before the flush is in the exported (cumulative) data
         if (ev[j].kind == XFF_ENTER && ev[j].a == r) xff = true;
       }
-      if (!exported) fail("C02:meter:flush-incomplete", vf::sfmt("provider ForceFlush #%d returned true at [%zu] but reader %d exported nothing containing the measurement recorded before the call", ev[i].a, i, r));
+      if (!exported) fail("C02:meter:flush-incomplete", vf::sfmt("provider ForceFlush #%d returned true at [%zu] but reader %d exported nothing containing all measurements recorded before the call (0x%x)", ev[i].a, i, r, need));
       if (!xff) fail("C02:meter:flush-without-exporter-flush", vf::sfmt("provider ForceFlush #%d returned true at [%zu] but ForceFlush of reader %d's exporter was not invoked", ev[i].a, i, r));
     }
   }
